@@ -47,6 +47,7 @@ def c12(ctx):
 
 def c09(ctx):
     ctx.gotest("internal", "^TestVerifC09", race=True, timeout=1800)
+    ctx.gotest("refclient", "^TestVerifC09", race=True, timeout=1800)
 
 
 def c14(ctx):
